@@ -74,8 +74,8 @@ CLAIMS['C25'] = dict(engine='rtc (E3) + symx path enumeration (E4) + pyframe own
     text='Bounded: Gram matrix = 1, every vector star is an equivariant field on one complete star, their number equals the total invariant dimension of the stabilisers, '
          'outer products are direct sums, the GF expansion equals the projected directly assembled matrix.',
     note='rate/bias/bare expansions are only exercised end-to-end (C06); catalogue, N <= 2.')
-CLAIMS['C26'] = dict(engine='rtc (E3)', category='exploration',
-    technique='run-time postconditions of jumpnetwork_omega1/omega2 and of the pruning in VacancyMediated.generate against brute-force enumeration (bounded stand-in)',
+CLAIMS['C26'] = dict(engine='pyvc (E1: AST -> VCs -> z3) + rtc (E3)', category='exploration',
+    technique='contract of StarSet.symmequivjumplist, the builder of every omega1 / omega2 class (the jump first, each (initial, final) pair once, closed under reversal, the image under every operation present with its displacement, nothing else), discharged by z3 from the extracted source for every group action (uninterpreted) and every group size; run-time postconditions of jumpnetwork_omega1/omega2 and of the pruning in VacancyMediated.generate against brute-force enumeration (bounded stand-in)',
     text='Bounded: every vacancy jump with the solute fixed (resp. every exchange) inside the star set is in exactly one class; classes are closed under the space group and reversal; '
          'dx is the vacancy displacement; the pruned omega1 list is exactly the classes touching the thermodynamic range.',
     note='Catalogue crystals, Nthermo 1..2.')
